@@ -400,6 +400,39 @@ func checkCrashLeftovers(c *Ctx) {
 	if n == 0 {
 		c.Violate("R6.6", "expected:clock-file-writes", "util/lamport", "no file write found in PersistedClock")
 	}
+	checkLockContentParsable(c)
+	// R6.8
+	for _, m := range []struct{ name, mut string }{{"UpdateRef", "SetReference"}, {"CopyRef", "SetReference"}, {"RemoveRef", "RemoveReference"}} {
+		fn := w.Method("repository", "GoGitRepo", m.name)
+		if fn == nil {
+			c.Undecided("R6.8", "anchor:GoGitRepo."+m.name, "repository", "not found")
+			continue
+		}
+		c.seeFn(funcName(fn))
+		nWant, other := 0, ""
+		for _, cl := range Calls(fn) {
+			recv, mm := lastDot(cl.Name)
+			if !strings.HasPrefix(recv, "github.com/go-git/go-git/v5") {
+				continue
+			}
+			if _, isMut := gogitMutators[mm]; !isMut || mm == "ResolveRevision" {
+				continue
+			}
+			c.Sites++
+			if mm == m.mut {
+				nWant++
+			} else {
+				other = mm + " at " + w.InstrPos(cl.Instr)
+			}
+		}
+		c.Check(nWant == 1 && other == "", "R6.8", "GoGitRepo."+m.name+":single-reference-mutation", w.FnPos(fn), "one "+m.mut, fmt.Sprintf("%s performs %d %s and %s: the ref change is not a single step of the storage, an interruption in between leaves the entity without any ref (neither its old nor its new state)", m.name, nWant, m.mut, map[bool]string{true: "no other mutation", false: other}[other == ""]))
+	}
+}
+
+// checkLockContentParsable (R6.7): shared with C19 — a stale lock that cannot be parsed is never recovered.
+func checkLockContentParsable(c *Ctx) {
+	w := c.W
+	c.Doc("R6.7", "the lock file holds exactly what its reader parses: RepoCache.lock writes the decimal pid and nothing else when repoIsAvailable hands the bytes to strconv.Atoi untrimmed (a trailing newline would make every stale lock unparseable and the repository unusable after a crash)")
 	// R6.7
 	lk := w.Method("cache", "RepoCache", "lock")
 	ria := w.Func("cache", "repoIsAvailable")
@@ -433,31 +466,5 @@ func checkCrashLeftovers(c *Ctx) {
 			}
 		}
 		c.Check(okW || trims, "R6.7", "RepoCache.lock:content-is-what-the-reader-parses", w.FnPos(lk), "the lock holds the pid only", "the lock file is written as "+shape+" but repoIsAvailable parses its bytes with strconv.Atoi without trimming: after a crash of the holder the stale lock cannot be parsed, every later open fails until the file is removed by hand")
-	}
-	// R6.8
-	for _, m := range []struct{ name, mut string }{{"UpdateRef", "SetReference"}, {"CopyRef", "SetReference"}, {"RemoveRef", "RemoveReference"}} {
-		fn := w.Method("repository", "GoGitRepo", m.name)
-		if fn == nil {
-			c.Undecided("R6.8", "anchor:GoGitRepo."+m.name, "repository", "not found")
-			continue
-		}
-		c.seeFn(funcName(fn))
-		nWant, other := 0, ""
-		for _, cl := range Calls(fn) {
-			recv, mm := lastDot(cl.Name)
-			if !strings.HasPrefix(recv, "github.com/go-git/go-git/v5") {
-				continue
-			}
-			if _, isMut := gogitMutators[mm]; !isMut || mm == "ResolveRevision" {
-				continue
-			}
-			c.Sites++
-			if mm == m.mut {
-				nWant++
-			} else {
-				other = mm + " at " + w.InstrPos(cl.Instr)
-			}
-		}
-		c.Check(nWant == 1 && other == "", "R6.8", "GoGitRepo."+m.name+":single-reference-mutation", w.FnPos(fn), "one "+m.mut, fmt.Sprintf("%s performs %d %s and %s: the ref change is not a single step of the storage, an interruption in between leaves the entity without any ref (neither its old nor its new state)", m.name, nWant, m.mut, map[bool]string{true: "no other mutation", false: other}[other == ""]))
 	}
 }
